@@ -1,19 +1,23 @@
-\* C02 exhaustive safety check of the bridge with the limiter as the statement needs it
-\* (DevLimiter = FALSE: waits are split into burst-sized pieces): the strict clauses hold.
+\* C02 exhaustive safety check of the bridge as the statement needs it: limiter waits split into
+\* burst-sized pieces (DevLimiter = FALSE), the target forwarder taken once before the copiers start
+\* (DevNilFwd = FALSE), a replaced source connection closed (DevStaleSrc = FALSE).  The strict
+\* clauses hold, nothing is excused.
 CONSTANTS
   BUF = 3
   MaxSends = @@MAXS@@
   MaxSlow = 7
-  Lims = {"tiny", "edge"}
-  Classes = {"one", "Bm1", "B", "Bp1", "big"}
+  Lims = {"none", "tiny", "edge", "large"}
+  Classes = @@CLS@@
   Faults = TRUE
   Replace = @@REPL@@
   ExtCloseOn = TRUE
   DevLimiter = FALSE
+  DevNilFwd = FALSE
+  DevStaleSrc = FALSE
   Gen = FALSE
   Emit = FALSE
 INIT Init
 NEXT Next
 VIEW view
-INVARIANTS TypeOK Prefix InOrder NoSpontaneousEnd Complete Independent ForgetImpliesClosed
+INVARIANTS TypeOK Prefix InOrder NoSpontaneousEnd Complete Independent ForgetImpliesClosed NoCrash
 CHECK_DEADLOCK FALSE
